@@ -58,7 +58,12 @@ func init() {
 
 type vRng struct{ s uint64 }
 
-func newVRng(seed uint64) *vRng { return &vRng{seed*0x9E3779B97F4A7C15 + 0x1234567} }
+// the state is the generator's own output for the seed: consecutive seeds must not give shifted copies of one sequence
+func newVRng(seed uint64) *vRng {
+	r := &vRng{seed ^ 0x1234567}
+	r.s = r.next() ^ (seed << 32)
+	return r
+}
 func (r *vRng) next() uint64 {
 	r.s += 0x9E3779B97F4A7C15
 	z := r.s
